@@ -331,6 +331,8 @@ def _r024(ctx: Ctx) -> None:
 
 
 def run(ctx: Ctx) -> None:
+    ctx.rule('R02.5', 'get_stabilizer/logicals hand out fresh values and derived data are written only by their own '
+                      'guarded initialisation', floor=100)
     ctx.rule('R02.4', 'derived indices (qubit_index, stabilizer_index, n, k, logicals, matrix) follow the coordinate lists', floor=11)
     ctx.rule('R02.1', 'matrix rows / to_bsf / from_bsf / site are the BSF image and its inverse', floor=6)
     ctx.rule('R02.2', 'row masks, Hx/Hz blocks, syndrome parts and is_css take the right block and mask', floor=12)
@@ -341,3 +343,6 @@ def run(ctx: Ctx) -> None:
     _r022(ctx)
     _r023(ctx)
     _r024(ctx)
+    from .c06 import code_state_rule, frozen_rule
+    frozen_rule(ctx, 'R02.5', 'panqec.codes')
+    code_state_rule(ctx, 'R02.5')
